@@ -288,8 +288,8 @@ write_eob:
 	write_bits	m_bits, m_bit_count, code2, code_len2, m_out_buf
 
 	mov	byte [stream + _internal_state_has_eob], 1
-	cmp	word [stream + _end_of_stream], 1
-	jne	sync_flush
+	cmp	word [stream + _end_of_stream], 0
+	je	sync_flush
 	;	   state->state = ZSTATE_TRL;
 	mov	dword [stream + _internal_state_state], ZSTATE_TRL
 	jmp	not_end
